@@ -224,7 +224,8 @@ def corr_term(item, r):
 # ------------------------------------------------------------------ generators: data expressible in all four formats
 
 STRS = ['a', 'b', 'ab', 'abc', 'x', '', '1', '10', 'true', 'null', 'hello world', 'hallo', 'k', 'é', 'aXb', 'yes', 'No', '~',
-        '1.5', 'a: b', '- x', "it's", '#c', ' lead', 'trail ', '日本']
+        '1.5', 'a: b', '- x', "it's", '#c', ' lead', 'trail ', '日本', 'a\nb', 'line\n', 'make\nmake test\n', 'x\n\ny\n', '\n',
+        'tab\there', 'two  spaces', 'a\nb\n\n']
 KEYS = ['a', 'b', 'c', 'key', 'kez', 'k1', 'k2', 'on', '1', 'aaaaaaaX', 'aaaaaaaY', 'nul', 'é', 'a b']
 
 
